@@ -119,6 +119,15 @@ def proof_step(pid, cfg, ev):
         bad = {k: v["status"] for k, v in lay.items() if isinstance(v, dict) and v.get("status") != "extracted"}
         ev["layouts"] = bad or f"all {len([k for k in lay if not k.startswith('_')])} structure layouts (writer and reader) translated from /repo/src, unchanged"
         ev["layouts_changed"] = [k for k, v in lay.items() if isinstance(v, dict) and v.get("status") == "extracted-changed"]
+        # bodies of small pure functions, translated from Rust to Lean (tools/rs2lean.py)
+        rc, out, _ = run([sys.executable, os.path.join(VERIF, "tools", "extract_funcs.py")])
+        try:
+            fns = json.loads(out[out.index("{"):])
+        except Exception:
+            fns = {}
+        badf = {k: v["status"] for k, v in fns.items() if isinstance(v, dict) and v.get("status") != "extracted"}
+        ev["functions"] = badf or f"all {len(fns)} function bodies translated from /repo/src, unchanged"
+        ev["functions_changed"] = [k for k, v in fns.items() if isinstance(v, dict) and v.get("status") == "extracted-changed"]
         mod = cfg["theorems"]
         targets = [mod, "jbkmodel"]
         rc, out, dt = run(["lake", "build"] + targets, cwd=LEAN, timeout=3000)
